@@ -11,7 +11,7 @@
    Each (type, matrix) is one TLC state; the invariant emits the verdict row that the harness compares with the
    real checker's diagnostics and with the arm chosen at run time by compiled code.                                *)
 EXTENDS Integers, Sequences, FiniteSets, TLC, Json, SequencesExt
-CONSTANTS Types, Rows, Depth, WithAlts
+CONSTANTS Types, Rows, Depth, WithAlts, Dense
 V(c, a) == [c |-> c, a |-> a]
 Bools == {V("true", <<>>), V("false", <<>>)}
 E3 == {V("A", <<>>), V("B", <<>>), V("C", <<>>)}
@@ -21,6 +21,10 @@ Values(ty) == CASE ty = "bool" -> Bools
                 [] ty = "pair" -> {V("tuple", <<b, e>>) : b \in Bools, e \in E3}
                 [] ty = "p" -> {V("X", <<b>>) : b \in Bools} \cup {V("Y", <<>>)} \cup {V("Z", <<b1, b2>>) : b1 \in Bools, b2 \in Bools}
                 [] ty = "int" -> {V("0", <<>>), V("1", <<>>), V("other", <<>>)}
+                \* dense integer matches (jump-table lowering): literals 0..3 of Int64 / Int32; every other tag is some value
+                \* that equals no literal: neighbours (m1, 4), values whose low 32 bits alias a literal (lo<k> = k - 2^32,
+                \* hi<k> = k + 2^32; for Int32 just far values), and the ends of the range
+                [] ty \in {"i64d", "i32d"} -> {V(t, <<>>) : t \in {"0", "1", "2", "3", "m1", "4", "lo0", "lo1", "lo3", "hi0", "hi2", "min", "max"}}
 \* constructors that can be written as patterns, with argument types
 Ctors(ty) == CASE ty = "bool" -> {<<"true", <<>>>>, <<"false", <<>>>>}
                [] ty = "e3" -> {<<"A", <<>>>>, <<"B", <<>>>>, <<"C", <<>>>>}
@@ -28,6 +32,7 @@ Ctors(ty) == CASE ty = "bool" -> {<<"true", <<>>>>, <<"false", <<>>>>}
                [] ty = "pair" -> {<<"tuple", <<"bool", "e3">>>>}
                [] ty = "p" -> {<<"X", <<"bool">>>>, <<"Y", <<>>>>, <<"Z", <<"bool", "bool">>>>}
                [] ty = "int" -> {<<"0", <<>>>>, <<"1", <<>>>>}
+               [] ty \in {"i64d", "i32d"} -> {<<"0", <<>>>>, <<"1", <<>>>>, <<"2", <<>>>>, <<"3", <<>>>>}
 Wild == [k |-> "wild"]
 RECURSIVE Pats(_, _)
 Pats(ty, d) == {Wild} \cup
@@ -58,7 +63,11 @@ ArmSet(ty) == [p : TopPats(ty), g : BOOLEAN]
 Matrices(ty) == UNION {[1..n -> ArmSet(ty)] : n \in 1..Rows}
 
 VARIABLES ty, m
-Init == ty \in Types /\ m \in Matrices(ty)
+\* dense family: at least three distinct literal arms, at most one guard, the last arm an unguarded wildcard (accepted matches)
+Lits(mm) == {mm[i].p.c : i \in {j \in 1..Len(mm) : mm[j].p.k = "ctor"}}
+DenseOK(mm) == /\ Cardinality(Lits(mm)) >= 3 /\ Cardinality({i \in 1..Len(mm) : mm[i].g}) <= 1
+               /\ mm[Len(mm)].p.k = "wild" /\ ~mm[Len(mm)].g
+Init == ty \in Types /\ m \in Matrices(ty) /\ (Dense => DenseOK(m))
 Next == UNCHANGED <<ty, m>>
 \* sanity theorems of the spec itself (checked on every state)
 UnreachableMonotone == \A i \in 1..Len(m) : Unreachable(ty, m, i) => \A v \in Values(ty) : \A gs \in GuardSets(m) : FirstMatch(m, v, gs) # i \/ m[i].g
